@@ -204,7 +204,7 @@ struct Point
 {
   std::string attrs;  // canonical, sorted
   bool overflow = false;
-  bool is_sum = false, is_hist = false;
+  bool is_sum = false, is_hist = false, monotonic = false;
   long double sum = 0;  // Sum value or histogram sum
   std::vector<uint64_t> counts;
   std::vector<double> bounds;
@@ -251,6 +251,7 @@ void capture(const sdkmet::ResourceMetrics &rm, Collection &c)
         {
           auto &s  = nostd::get<sdkmet::SumPointData>(pd.point_data);
           p.is_sum = true;
+          p.monotonic = s.is_monotonic_;
           p.sum    = nostd::holds_alternative<int64_t>(s.value_)
                          ? (long double)nostd::get<int64_t>(s.value_)
                          : (long double)nostd::get<double>(s.value_);
@@ -340,7 +341,7 @@ struct World
   const Case *c = nullptr;
   std::shared_ptr<sdkmet::MeterContext> ctx;
   std::unique_ptr<sdkmet::MeterProvider> prov;
-  nostd::shared_ptr<metrics_api::Meter> meter;
+  nostd::shared_ptr<metrics_api::Meter> meter, meter2;  // the last instrument may live on a second meter
   std::vector<std::shared_ptr<sdkmet::MetricReader>> readers;
   std::vector<std::vector<Handle>> handles;  // [instrument][handle]
   std::vector<Collection> collections;
@@ -384,25 +385,27 @@ void make_handle(World &w, int i)
   int kind = (int)w.c->knob(fmt("itype%d", i).c_str(), 0);
   Handle h;
   std::string n = instr_name(i);
+  // instruments are spread over two meters when the knob says so (every meter must be collected)
+  auto &meter = (w.c->knob("second_meter", 0) && i == (int)w.c->knob("ninstr", 1) - 1) ? w.meter2 : w.meter;
   switch (kind)
   {
     case I_COUNTER_LONG:
-      h.cl = w.meter->CreateUInt64Counter(n);
+      h.cl = meter->CreateUInt64Counter(n);
       break;
     case I_COUNTER_DOUBLE:
-      h.cd = w.meter->CreateDoubleCounter(n);
+      h.cd = meter->CreateDoubleCounter(n);
       break;
     case I_UPDOWN_LONG:
-      h.ul = w.meter->CreateInt64UpDownCounter(n);
+      h.ul = meter->CreateInt64UpDownCounter(n);
       break;
     case I_UPDOWN_DOUBLE:
-      h.ud = w.meter->CreateDoubleUpDownCounter(n);
+      h.ud = meter->CreateDoubleUpDownCounter(n);
       break;
     case I_HIST_LONG:
-      h.hl = w.meter->CreateUInt64Histogram(n);
+      h.hl = meter->CreateUInt64Histogram(n);
       break;
     default:
-      h.hd = w.meter->CreateDoubleHistogram(n);
+      h.hd = meter->CreateDoubleHistogram(n);
   }
   w.handles[i].push_back(std::move(h));
 }
@@ -734,7 +737,8 @@ void body(const Case &c)
       w.readers.push_back(rd);
       w.prov->AddMetricReader(rd);
     }
-    w.meter = w.prov->GetMeter("m");
+    w.meter  = w.prov->GetMeter("m");
+    w.meter2 = w.prov->GetMeter("m2", "2.0");
     for (int i = 0; i < ninstr; ++i)
       make_handle(w, i);
   }
@@ -744,7 +748,8 @@ void body(const Case &c)
     do_collect(w, r, true);
   // tear down
   w.handles.clear();
-  w.meter = nostd::shared_ptr<metrics_api::Meter>(nullptr);
+  w.meter  = nostd::shared_ptr<metrics_api::Meter>(nullptr);
+  w.meter2 = nostd::shared_ptr<metrics_api::Meter>(nullptr);
   w.readers.clear();
   w.prov.reset();
   w.storage.reset();
@@ -937,6 +942,10 @@ void check(const Case &c, const vsim::RunResult &)
                 continue;
               }
               bool neg = (kind == I_UPDOWN_LONG || kind == I_UPDOWN_DOUBLE);
+              if (p.monotonic == neg)
+                report_for(c, "C06.monotonic_flag",
+                           fmt("reader %d stream %s: is_monotonic=%d on %s", r, st.name.c_str(),
+                               (int)p.monotonic, neg ? "an up-down counter" : "a counter"));
               if ((p.sum < 0) != neg && p.sum != 0)
                 report_for(c, "C06.garbage", fmt("reader %d: sum has the wrong sign", r));
               std::vector<int> dg;
@@ -1298,6 +1307,15 @@ void generate(const std::string &prop, Rng &wl, Rng &fl, Case &c)
     }
     if (nviews)
       stratum = "api_views";
+  }
+  if (!direct && ninstr >= 2 && wl.chance(0.4))
+  {
+    bool targeted = false;
+    for (int v = 0; v < nviews; ++v)
+      if (c.knob(fmt("view%d_instr", v).c_str(), 0) == ninstr - 1)
+        targeted = true;
+    if (!targeted)
+      c.set("second_meter", 1);  // views select meter "m" only
   }
   bool dup = prop == "C06" && !direct && wl.chance(0.1);
   if (dup)
